@@ -39,7 +39,8 @@ def guard_rule(ctx, F):
     site = ctx.site_of(F, f["def"])
     try:
         ps, _ = util.run_fn(F, f, summarise_pure=False,
-                            inline=lambda g2, t: any(x in mir.callee_decl(t) for x in ("shapetype", "ShapeType", "PartialEq")))
+                            inline=lambda g2, t: any(x in mir.callee_decl(t) for x in ("shapetype", "ShapeType", "PartialEq")) or
+                            mir.callee_decl(t).startswith("writer::ShapeWriter"))     # the guard may sit in a private method
     except absint.Unanalysable as e:
         ctx.unanalysable("C10.guard", f["def"], str(e))
         return
